@@ -212,6 +212,13 @@ def focused(tier):
                            {"A": klass([ARR, None, None], [[0.5], [2.0, 1.0], [2.0, 1.0]],
                                        route=network({"t": how, "dest": [2, 3], "tie": "order"}, leave(), leave()))},
                            K=K, T=10.0, features=["network", how]))
+    # JSQ / LB towards a scheduled node: customers started at a shift change must count as in service
+    for how in ("jsq", "lb"):
+        out.append(cfg("%s to sched+c1" % how, fam,
+                       [node(c=1), node(c={"sched": {"numbers": [0, 1], "ends": [2.0, 6.0], "preempt": False}}), node(c=1)],
+                       {"A": klass([[0.5, 1.0], None, None], [[0.5], [4.0, 1.0], [3.0, 1.0]],
+                                   route=network({"t": how, "dest": [3, 2], "tie": "order"}, leave(), leave()))},
+                       K=4 if tier == "quick" else 5, T=12.0, features=["network", how, "schedule"]))
     # pre-emptive reroute at the JSQ destinations: the in-service count must survive it
     for how in ("jsq", "lb"):
         out.append(cfg("%s with preempt reroute at destinations" % how, fam,
